@@ -30,6 +30,7 @@ type verifC04 struct {
 	marked     map[string]bool
 	cascade    map[string]bool
 	step       int
+	checkAB    bool // assert (a)/(b) at checkpoints (semi-sync configuration, master not killed)
 }
 
 func verifContains(l []string, h string) bool {
@@ -69,6 +70,9 @@ func (c *verifC04) invB() bool {
 func (c *verifC04) checkpoint(what string) {
 	c.step++
 	verifnd.Fact("after", what)
+	if !c.checkAB {
+		return
+	}
 	verifnd.Assert(verifnd.Implies(c.preA, c.invA()), "checkpoint.a")
 	verifnd.Assert(verifnd.Implies(c.preB, c.invB()), "checkpoint.b")
 }
@@ -104,7 +108,8 @@ func (c *verifC04) contentRules() {
 	}
 	if evicted {
 		verifnd.Reach("C04.evicted")
-		verifnd.Assert(c.w.fleet.Servers[c.master].Alive, "list.evict-without-master-ping")
+		// (the master is reachable in the ground truth and the manager's latest ping of it did not fail)
+		verifnd.Assert(c.w.fleet.Servers[c.master].Alive && !c.w.fleet.PingFailed[c.master], "list.evict-without-master-ping")
 	}
 }
 
@@ -120,6 +125,10 @@ func H_C04_update_active() {
 	ha := append([]string{master}, replicas...)
 	cfg := verifConfig(master)
 	cfg.SemiSync = true
+	if verifnd.Param("async", 0) == 1 {
+		// also the asynchronous configuration (only the content rules and the eviction guard are asserted there)
+		cfg.SemiSync = verifnd.Choose("cfg.semisync", 2) == 0
+	}
 	cfg.MasterFirstAdjustSSOrder = verifnd.Bool("cfg.master_first")
 	wcfg := 1 + verifnd.Choose("cfg.wait_count", verifnd.Param("max_w", 2))
 	cfg.RplSemiSyncMasterWaitForSlaveCount = wcfg
@@ -158,7 +167,14 @@ func H_C04_update_active() {
 		s.Executed = 1
 		s.LagValid, s.Lag = true, 0
 		s.LogFile, s.ReadPos = "bin.1", 1000
-		cls := verifnd.Choose("class."+h, 10)
+		allowed := []int{}
+		for k := 0; k < 10; k++ {
+			// (classes: bit mask of the replica classes inside this obligation's bound; 0 = all)
+			if mask := verifnd.Param("classes", 0); mask == 0 || mask&(1<<uint(k)) != 0 {
+				allowed = append(allowed, k)
+			}
+		}
+		cls := allowed[verifnd.Choose("class."+h, len(allowed))]
 		if verifnd.Param("symmetry", 0) == 1 {
 			// symmetry reduction (quick tier): replica classes in non-decreasing order
 			verifnd.Assume(cls >= prevClass)
@@ -237,6 +253,9 @@ func H_C04_update_active() {
 	c.preA, c.preB = c.invA(), c.invB()
 	w.fleet.FaultBudget = verifnd.Param("faults", 0)
 	w.fleet.FaultKinds = 2
+	if verifnd.Param("fault_only_ping", 0) == 1 {
+		w.fleet.FaultOnly = "ping"
+	}
 	w.fleet.Checkpoint = func(host, stmt string) { c.checkpoint(host + ":" + stmt) }
 	w.dcs.Checkpoint = func(op, path string) {
 		if path == pathActiveNodes {
@@ -245,10 +264,31 @@ func H_C04_update_active() {
 		c.checkpoint("dcs " + op + " " + path)
 	}
 
+	// the master may die after the manager's observation: right before the step, or right
+	// before any MySQL statement of the step (never between the guard's own probe and the
+	// publication that follows it without another statement: that race is unavoidable)
+	killed, calls := false, 0
+	if verifnd.Param("kill_master", 0) == 1 {
+		die := func() {
+			if !killed && calls <= verifnd.Param("kill_points", 12) && verifnd.Choose("master.dies.now", 2) == 1 {
+				killed = true
+				ms.Alive = false
+				verifnd.Reach("C04.master-died")
+				verifnd.Fact("master_died", "yes")
+			}
+		}
+		die()
+		w.fleet.OnCall = func(host, stmt string) {
+			calls++
+			die()
+		}
+	}
+	c.checkAB = cfg.SemiSync && verifnd.Param("kill_master", 0) == 0
+
 	err := w.app.updateActiveNodes(cs, csd, old, master)
 
 	verifnd.Fact("after", "return")
-	if err == nil && len(w.fleet.FaultsUsed) == 0 && !ms.ReadOnly {
+	if err == nil && len(w.fleet.FaultsUsed) == 0 && !ms.ReadOnly && cfg.SemiSync && !killed {
 		// a completed step with the master healthy and writable
 		verifnd.Reach("C04.completed")
 		verifnd.Assert(c.invA(), "post.a")
@@ -266,6 +306,10 @@ func H_C04_update_active() {
 
 // H_C04_update_active_faults: the same step with one failing / lost-reply MySQL call.
 func H_C04_update_active_faults() { H_C04_update_active() }
+
+// H_C04_evict_guard: the same step with two replicas (so that one can leave while the other
+// joins) and one failing ping of the master: no member may leave the published list then.
+func H_C04_evict_guard() { H_C04_update_active() }
 
 // H_C04_set_recovery: SetRecovery(h) removes h from the published list before it
 // writes the mark, so at every crash point / failing coordination call
